@@ -37,3 +37,7 @@ CHECKS["C13"] = ("property-based testing (rapid): differential against a GM/T 00
   "Initiator and responder called with generated long-term/ephemeral keys (leading-zero classes, shared point walked to a leading-zero coordinate), ids 0..8191 bytes, klen 1..1024: equal k, s1, s2 on both sides and equal to the reference; off-curve / zero / random peer ephemerals, V=infinity construction and ids >= 8192 bytes give errors. Exploration.",
   "Trusts ref/rsm2. Coordinates >= p are treated as unspecified.",
   "DESIGN.md §5 C13")
+CHECKS["C14"] = ("property-based testing (rapid): round-trip identities over every serializer with forced leading-zero key classes, independent DER walks, wrong-password catalogue, loader accept<=>match matrix",
+  "Keys from a committed table with 1..3 leading zero bytes in d/x/y (re-verified with the reference at load) plus small/near-n/uniform d through PKCS#8 PEM/DER (with/without password), public PEM/DER, PKIX, hex (with/without 04, odd digit counts), compressed point; (r,s) and ciphertext ASN.1 encodings incl. short C1 coordinates; wrong passwords (one bit, case, length +-1, nil vs empty) must error; X509KeyPair/LoadX509KeyPair/GMX509KeyPairs(Single)/LoadGMX509KeyPair(s) with matching, other-same-type and other-type keys for SM2, RSA, ECDSA certificates. Exploration.",
+  "Trusts ref/rsm2, ref/rder and crypto/x509 (to mint RSA/ECDSA certificates). Passwords differing only by trailing NUL bytes are the same HMAC key and are not counted as wrong. GM two-pair loaders with non-SM2 certificates: unspecified.",
+  "DESIGN.md §5 C14")
